@@ -83,6 +83,10 @@ def text_jobs(ctx, quick, names, texts, rng):
     # seeded random names over all 256 octets, incl. 63-octet labels and names at 255 octets
     for i in range(3000 if quick else 40000):
         n = rnd_name(rng)
+        if rng.random() < 0.15:
+            host = b"abcXYZ019-_*"
+            n = [[rng.choice(host) for _ in range(rng.randint(0, 8))] + [rng.choice([9, 10, 11, 12, 13, 31, 0, 32, 127, 133, 160])]
+                 for _ in range(rng.randint(1, 3))] + ([[]] if rng.random() < 0.5 else [])
         if rng.random() < 0.1:
             room = 255 - wirelen(n)
             absn = bool(n) and n[-1] == []
@@ -221,7 +225,7 @@ def length_jobs(ctx, lens):
     return jobs
 
 
-def cons_jobs(ctx, quick, cons, neigh, rng):
+def cons_jobs(ctx, quick, cons, neigh, rng, strnames=()):
     jobs = []
     k = 0
 
@@ -234,6 +238,11 @@ def cons_jobs(ctx, quick, cons, neigh, rng):
         add("construct", ls)
         if all(len(x) <= 63 for x in ls) and wirelen(ls) <= 255 and all(x != [] for x in ls[:-1]):
             valid.append(ls)
+    # Name(...) from `str` labels (1..4-octet UTF-8 characters) at 63/64 and 255/256 octets
+    for spec, ab in strnames:
+        add("construct_str", spec, ab, False)
+        if len(spec) > 1:
+            add("construct_str", spec, ab, True)
     for a in valid:
         add("name", a)
         for b in valid:
@@ -252,6 +261,8 @@ def cons_jobs(ctx, quick, cons, neigh, rng):
         if rng.random() < 0.5:
             ls.append([])
         add("construct", ls)
+        spec = [[rng.randint(1, 4), rng.choice([1, 2, 15, 16, 20, 21, 22, 30, 31, 32, 33, 62, 63, 64])] for _ in range(rng.randint(1, 5))]
+        add("construct_str", spec, rng.random() < 0.5, rng.random() < 0.3)
         a, b = rnd_name(rng, absolute=False), rnd_name(rng)
         if rng.random() < 0.3:
             a = [[97] * 63] * rng.choice([2, 3]) + a
@@ -259,7 +270,8 @@ def cons_jobs(ctx, quick, cons, neigh, rng):
         if wirelen(a) <= 255:
             add("concat", a, b)
             add("rel", a, b)
-    ctx.extra.setdefault("universe", {}).update({"construct_inputs": len(cons), "valid_construct_inputs": len(valid)})
+    ctx.extra.setdefault("universe", {}).update({"construct_inputs": len(cons), "valid_construct_inputs": len(valid),
+                                               "str_label_names": len(strnames)})
     ctx.extra["random_constructor_cases"] = len(jobs) - n0
     return jobs
 
@@ -331,12 +343,13 @@ def split_traces(traces):
 
 def run(ctx):
     quick = ctx.tier == "quick"
-    ctx.rule = ("universes emitted by TLC from specs/NameUniverse.tla: NamesA (names over 16 octet classes) -> to_text / "
+    ctx.rule = ("universes emitted by TLC from specs/NameUniverse.tla: NamesA (names over 16 octet classes) + CtlNames (hostname-style "
+                "labels with a control octet last / first / inside) -> to_text / "
                 "from_text / Tokenizer.get_name under 3 origins; Texts (all texts over the escape alphabet) -> from_text, "
                 "get_name; PlainCases (all byte strings over 11 byte classes x every start offset) and SegCases (segment "
                 "level, 255/256 octets, 0x3FFF) -> recorded decoding; WNames -> all pairs / triples of compressed writes, "
                 "bases around 0x3FFF; LenRel x LenOrg -> to_wire(None) / to_digestable / to_wire(file) of relative name + origin "
-                "at 255/256; ConstructInputs -> constructors at 63/64 and 255/256; plus seeded random names, "
+                "at 255/256; ConstructInputs -> constructors at 63/64 and 255/256; StrNames -> Name() from str labels of 1..4-octet characters at the same limits; plus seeded random names, "
                 "texts, corrupted compressed messages and write scripts over all 256 octets. distinct = distinct (operation, "
                 "arguments); all are non-trivial except the empty text / empty wire / empty name inputs")
     ctx.assumptions += ["TLC and CommunityModules Json are correct", "driver projections (drivers/c01_names.py, RecParser) are faithful",
@@ -371,13 +384,13 @@ def _run(ctx, quick, mc):
         # multi-worker requests when many checks run at once); they overlap with the validation
         if not os.environ.get("VERIF_C01_SKIP_MC"):      # (development aid: validation without the model runs)
             mc += _models(ctx, ex, tier)
-        gens = {k: ex.submit(gen, ctx, k, quick) for k in ("namesA", "texts", "wires", "segs", "wnames", "cons", "neigh", "len")}
+        gens = {k: ex.submit(gen, ctx, k, quick) for k in ("namesA", "texts", "wires", "segs", "wnames", "cons", "neigh", "len", "ctl", "strnames")}
         g = {k: f.result() for k, f in gens.items()}
         rng = random.Random(2000 + ctx.seed)
-        jobs = text_jobs(ctx, quick, g["namesA"], g["texts"], rng)
+        jobs = text_jobs(ctx, quick, g["namesA"] + g["ctl"], g["texts"], rng)
         jobs += wire_jobs(ctx, quick, g["wires"], g["segs"], g["wnames"], rng)
         jobs += length_jobs(ctx, g["len"])
-        jobs += cons_jobs(ctx, quick, g["cons"], g["neigh"], rng)
+        jobs += cons_jobs(ctx, quick, g["cons"], g["neigh"], rng, g["strnames"])
         ctx.log("%d jobs to run on the implementation" % len(jobs))
         traces = ctx.pmap(c01_names.run_job, jobs, chunk=1000)
         ctx.log("implementation runs done")
